@@ -44,10 +44,8 @@ pub struct Ctx {
 
 impl Ctx {
     pub fn work_dir(&self, sub: &str) -> PathBuf {
-        let d = self
-            .verif_dir
-            .join("work")
-            .join(format!("{}-{}-{}-{}", self.id, self.profile, std::process::id(), sub));
+        let root = std::env::var("VERIF_WORK_DIR").map(PathBuf::from).unwrap_or_else(|_| self.verif_dir.join("work"));
+        let d = root.join(format!("{}-{}-{}-{}", self.id, self.profile, std::process::id(), sub));
         let _ = std::fs::remove_dir_all(&d);
         std::fs::create_dir_all(&d).expect("create work dir");
         d
